@@ -24,7 +24,7 @@ import (
 func TestC13(t *testing.T) {
 	r := report.Start("C13")
 	defer r.Finish()
-	nh := r.Pick(96, 6400)
+	nh := r.Cases(96, 6400)
 	for i := 0; i < nh; i++ {
 		id := fmt.Sprintf("hist/%d", i)
 		if !r.Want(id, i) {
